@@ -639,6 +639,22 @@ pub fn forge(d: &mut D) {
             }
         }
     }
+    // every command code carrying the body of each answerable command (a body that would be acted upon if the
+    // code were mistaken for that command's), the EID always different from the current one
+    for cmd in 0..=255u16 {
+        for (k, shape) in [vec![0u8, 0], vec![1, 0], vec![], vec![0], vec![1], vec![0xFF]].iter().enumerate() {
+            let mut data = shape.clone();
+            if data.len() == 2 {
+                data[1] = 1 + ((cmd * 3 + k as u16 * 11) % 250) as u8;
+            }
+            let mut q: Vec<u8> = vec![0x46, 0x0F, 0, 0x23, 0x01, 0x23, 0x11, 0xC8, 0x00, 0x80 | (cmd as u8 & 0x1F), cmd as u8];
+            q.extend_from_slice(&data);
+            q.push(0);
+            q[2] = (q.len() - 4) as u8;
+            fix_pec(&mut q);
+            d.process(5, &q);
+        }
+    }
     // requesters whose SMBus source address and source EID disagree (outside C12's domain, inside C03-C05's
     // and C11's): every answerable command, every configured vendor selector
     for (src_addr, src_eid) in [(0x11u8, 0x12u8), (0x24, 0xA4), (0x7F, 0x00), (0x00, 0xFF), (0x23, 0x56)] {
